@@ -62,6 +62,7 @@ type Report struct {
 	mu         sync.Mutex
 	start      time.Time
 	bySig      map[string]*Violation
+	alts       map[string][]*Violation // per signature: the smallest counterexample of up to maxAlts other configurations
 	sigCount   map[string]int
 	Cov        map[string]any
 	Assume     []string
@@ -78,7 +79,7 @@ func NewReport(prop, tier string) *Report {
 		root = "/verif"
 	}
 	return &Report{Property: prop, Tier: tier, Seed: seed, Root: root, start: time.Now(),
-		bySig: map[string]*Violation{}, sigCount: map[string]int{}, Cov: map[string]any{}, exhaustive: true}
+		bySig: map[string]*Violation{}, alts: map[string][]*Violation{}, sigCount: map[string]int{}, Cov: map[string]any{}, exhaustive: true}
 }
 
 func (r *Report) Add(key string, n int64) {
@@ -141,7 +142,12 @@ func (r *Report) Assumption(s string) {
 	r.Assume = append(r.Assume, s)
 }
 
-// Violation records v; per signature the smallest counterexample is kept.
+const maxAlts = 6
+
+// Violation records v; per signature the smallest counterexample is kept, plus the smallest one of
+// a few other configurations: when state leaks between objects, what the search saw in one
+// configuration may depend on the order of the search and not reproduce on its own, while the same
+// clause is violated reproducibly elsewhere.
 func (r *Report) Violation(v *Violation) {
 	r.mu.Lock()
 	defer r.mu.Unlock()
@@ -149,14 +155,39 @@ func (r *Report) Violation(v *Violation) {
 		v.Property = r.Property
 	}
 	r.sigCount[v.Signature]++
+	less := func(a, b *Violation) bool {
+		return a.size() < b.size() || (a.size() == b.size() && fmt.Sprint(a.History, a.Choices) < fmt.Sprint(b.History, b.Choices))
+	}
 	old, ok := r.bySig[v.Signature]
-	if !ok || v.size() < old.size() || (v.size() == old.size() && fmt.Sprint(v.History, v.Choices) < fmt.Sprint(old.History, old.Choices)) {
+	if !ok {
 		r.bySig[v.Signature] = v
+		return
+	}
+	if string(old.Config) == string(v.Config) {
+		if less(v, old) {
+			r.bySig[v.Signature] = v
+		}
+		return
+	}
+	if less(v, old) {
+		r.bySig[v.Signature], v = v, old // the displaced one becomes an alternate
+	}
+	al := r.alts[v.Signature]
+	for i, a := range al {
+		if string(a.Config) == string(v.Config) {
+			if less(v, a) {
+				al[i] = v
+			}
+			return
+		}
+	}
+	if len(al) < maxAlts {
+		r.alts[v.Signature] = append(al, v)
 	}
 }
 
 // Skip counts an occurrence of sig and reports whether a counterexample with a
-// history of histLen operations could not improve on the one already kept (so
+// history of histLen operations could not improve on the ones already kept (so
 // the caller can skip building it).
 func (r *Report) Skip(sig string, histLen int) bool {
 	r.mu.Lock()
@@ -167,6 +198,33 @@ func (r *Report) Skip(sig string, histLen int) bool {
 		return true
 	}
 	return false
+}
+
+// SkipCfg is Skip for searches over many configurations: a counterexample of configuration cfg is
+// still wanted (as an alternate) unless that configuration already has one at least as short, or
+// the alternates are full.
+func (r *Report) SkipCfg(sig string, histLen int, cfg []byte) bool {
+	r.mu.Lock()
+	defer r.mu.Unlock()
+	old, ok := r.bySig[sig]
+	if !ok {
+		return false
+	}
+	skip := false
+	if string(old.Config) == string(cfg) {
+		skip = len(old.History) <= histLen
+	} else {
+		skip = len(old.History) <= histLen && len(r.alts[sig]) >= maxAlts
+		for _, a := range r.alts[sig] {
+			if string(a.Config) == string(cfg) {
+				skip = len(a.History) <= histLen
+			}
+		}
+	}
+	if skip {
+		r.sigCount[sig]++
+	}
+	return skip
 }
 
 // HasViolation reports whether a violation with that signature was recorded.
@@ -222,23 +280,36 @@ func (r *Report) Finish() int {
 	var knownHits []string
 	for _, s := range sigs {
 		v := r.bySig[s]
-		// believe a violation only if it reproduces 5x from scratch
-		if v.Confirm != nil {
+		// believe a violation only if it reproduces 5x from scratch; try the alternates of other
+		// configurations before giving up
+		cands := append([]*Violation{v}, r.alts[s]...)
+		confirmed := false
+		why := ""
+		for _, c := range cands {
+			if c.Confirm == nil {
+				v, confirmed = c, true
+				break
+			}
 			okAll := true
-			why := ""
 			for i := 0; i < 5; i++ {
-				ok, msg := v.Confirm()
+				ok, msg := c.Confirm()
 				if !ok {
 					okAll = false
-					why = msg
+					if why == "" {
+						why = msg
+					}
 					break
 				}
 			}
-			if !okAll {
-				r.Broken = fmt.Sprintf("violation %q did not reproduce on replay: %s", s, why)
-				continue
+			if okAll {
+				c.Confirmed = "replayed 5x from scratch on a fresh instance, identical each time"
+				v, confirmed = c, true
+				break
 			}
-			v.Confirmed = "replayed 5x from scratch on a fresh instance, identical each time"
+		}
+		if !confirmed {
+			r.Broken = fmt.Sprintf("violation %q did not reproduce on replay: %s", s, why)
+			continue
 		}
 		known := false
 		for _, f := range findings {
